@@ -269,7 +269,9 @@ out(cases=n, failing=bad)
 def replay(ob, res):
     from pyvc import replay as rp
     obs = rp.run_real(SNIPPET, {}, timeout=300)
-    if obs.get("failing"):
+    from pyvc.replay import failing_of
+    if failing_of(obs):
+        obs = dict(obs, failing=failing_of(obs))
         return {"reproduced": True, "call": "Client._connect() with a fault injected at the k-th environment call", "input": obs["failing"],
                 "cases_tried": obs.get("cases")}
     return {"reproduced": False, "searched": obs}
